@@ -123,7 +123,7 @@ struct Scenario
 	// everything needed to run the same scenario twice (with / without NAT)
 	std::vector<NodeSpec> nodes;
 	struct AccSpec { int node; ip::address addr; std::uint16_t port; std::vector<std::pair<std::int64_t, int>> accepts; };
-	struct CliSpec { int node; int acc; BadKind bad; std::int64_t t; bool bind_explicit; int addr_idx; };
+	struct CliSpec { int node; int acc; BadKind bad; std::int64_t t; bool bind_explicit; int addr_idx; std::uint16_t bind_port; };
 	std::vector<AccSpec> accs;
 	std::vector<CliSpec> clis;
 	std::map<ip::address, std::vector<QSpec>> in_spec, out_spec;
@@ -221,7 +221,9 @@ struct World
 			ip::address la;
 			for (auto const& ad : n.addrs) if (ad.is_v4() == v4) la = ad;
 			API(c.s->open(v4 ? ip::tcp::v4() : ip::tcp::v6(), ec));
-			API(c.s->bind(ip::tcp::endpoint(la, 0), ec));
+			// port 0, or a fixed port -- possibly the very number the acceptor listens on (on another node)
+			API(c.s->bind(ip::tcp::endpoint(la, cs.bind_port), ec));
+			if (ec) { ec.clear(); API(c.s->bind(ip::tcp::endpoint(la, 0), ec)); }
 			c.bound_explicit = true;
 		}
 		c.t_init = now_ns();
@@ -558,6 +560,7 @@ Scenario gen(Args const& a, Rng& rng, bool nat_focus)
 	int const ncli = 1 + rng.choose(8);
 	std::int64_t const horizon = rng.pick(std::vector<std::int64_t>{0, 1000000, 100000000, 1000000000});
 	std::vector<int> per_acc(std::size_t(nacc), 0);
+	bool fixed_port_used = false;
 	for (int i = 0; i < ncli; ++i)
 	{
 		Scenario::CliSpec cs;
@@ -574,6 +577,13 @@ Scenario gen(Args const& a, Rng& rng, bool nat_focus)
 		cs.t = horizon ? rng.range(0, horizon) : 0;
 		cs.bind_explicit = rng.coin(1, 3);
 		cs.addr_idx = 0;
+		cs.bind_port = 0;
+		// at most one client per scenario uses a fixed local port (SYNs are identified by source port)
+		if (cs.bind_explicit && !fixed_port_used && rng.coin() && sc.nodes[std::size_t(cs.node)].addrs[0] != sc.accs[std::size_t(cs.acc)].addr)
+		{
+			cs.bind_port = rng.coin(2, 3) ? sc.accs[std::size_t(cs.bad == GOOD ? cs.acc : 0)].port : std::uint16_t(6881);
+			fixed_port_used = true;
+		}
 		if (cs.bad == GOOD) ++per_acc[std::size_t(cs.acc)];
 		sc.clis.push_back(cs);
 	}
@@ -599,7 +609,7 @@ Scenario gen(Args const& a, Rng& rng, bool nat_focus)
 		sc.desc += "}";
 	}
 	for (auto const& cs : sc.clis)
-		sc.desc += fmt(" cli(n%d->%s t=%" PRId64 "us%s)", cs.node, cs.bad == GOOD ? fmt("acc%d", cs.acc).c_str() : fmt("bad%d", int(cs.bad)).c_str(), cs.t / 1000, cs.bind_explicit ? " bound" : "");
+		sc.desc += fmt(" cli(n%d->%s t=%" PRId64 "us%s)", cs.node, cs.bad == GOOD ? fmt("acc%d", cs.acc).c_str() : fmt("bad%d", int(cs.bad)).c_str(), cs.t / 1000, cs.bind_explicit ? (cs.bind_port ? fmt(" bound:%u", unsigned(cs.bind_port)).c_str() : " bound") : "");
 	return sc;
 }
 
